@@ -47,6 +47,10 @@ CHECKS = {
  'C18': dict(engine='P', technique='same dispatch enumeration + native execution vs FindReachable under all four root selections; inclusion and monotonicity clauses',
              text='Every natively executed function must be reported by FindReachable (all roots, -noinit); every function reachable in the pointer call graph must be reported; the reported set is within all program functions and shrinks monotonically when roots are excluded.',
              note='-nomain selections demand nothing natively; CLI json output not compared', ref='§6 C18'),
+
+ 'C19': dict(engine='P', technique='exhaustive product go-statement form x recovery form; generator facts validated by one native process run per cell (crash trace of the panicking goroutine)',
+             text='All 10 go-statement forms x 9 recovery forms: the entry function must be reported with a creation site whenever it does not itself defer a function that calls recover; each cell is also executed natively in its own process and the crash trace (or survival) validates the generator fact; an unrelated -exclude entry must not change the report.',
+             note='main package only; spurious reports not judged', ref='§6 C19'),
 }
 NA = []
 def main():
